@@ -2,7 +2,7 @@
    every oracle; the table-client glue; the refutation witnesses and the examples. *)
 From Coq Require Import List NArith ZArith Bool Lia Permutation String.
 From DepsDev Require Import Lib.Base Gen.PypiTables Resolve.Pypi Resolve.Pypi_lists_proofs
-     Resolve.Pypi_inv_proofs Resolve.Pypi_graph_proofs Resolve.Pypi_spec Resolve.Pypi_examples.
+     Resolve.Pypi_inv_proofs Resolve.Pypi_graph_proofs Resolve.Pypi_fuel_proofs Resolve.Pypi_spec Resolve.Pypi_examples.
 Import ListNotations.
 
 Section Top.
@@ -47,6 +47,15 @@ Section Top.
   Tactic Notation "start" hyp(H) ident(st) ident(HI) ident(U) ident(B) :=
     destruct (resolve_split _ _ H) as (st & Hs & B);
     destruct (resolve_state_Inv _ _ _ _ _ _ _ _ _ Hwf _ _ Hs) as [HI U].
+
+  (* a state returned by the resolution always yields a graph: the fuel of hasRouteToRoot
+     suffices and buildGraph's unexpected-package error is unreachable *)
+  Theorem graph_total fuel st : RESOLVE_STATE fuel = Ok st -> exists g, RESOLVE fuel = Ok g.
+  Proof.
+    intros H. destruct (resolve_state_Inv _ _ _ _ _ _ _ _ _ Hwf _ _ H) as [HI U].
+    destruct (build_graph_total _ _ _ _ _ _ _ _ _ Hwf _ HI U) as (g & B).
+    exists g. unfold resolve_fuel. rewrite H. simpl. auto.
+  Qed.
 
   Theorem one_version fuel g : RESOLVE fuel = Ok g -> NoDup (map vk_name (g_nodes g)).
   Proof. intros H. start H st HI U B. eapply graph_one_version; eauto. Qed.
@@ -258,6 +267,51 @@ Proof. exact (refutes_full _ _ _ _ route_witness). Qed.
 
 Theorem edges_complete_refuted_extras : ~ edges_complete_full.
 Proof. exact (refutes_full _ _ _ _ extras_witness). Qed.
+
+(* ---------- the false-marker clause as stated by the property is false of the resolver ---------- *)
+Definition false_marker_full : Prop :=
+  forall c_versions c_requirements c_matching marker_true has_pre constraint_ok match_pre ver_lt root g,
+    client_wf c_versions c_requirements c_matching ->
+    (forall v l, c_requirements v = Ok l -> NoDup (map rq_name l)) ->
+    resolve c_versions c_requirements c_matching marker_true has_pre constraint_ok match_pre ver_lt root = Ok g ->
+    false_marker_clause c_requirements marker_true g.
+
+Definition refutes_marker (t : table) (root : vkey) (i j : nat) (d : req) : Prop :=
+  table_ok_b t = true /\
+  exists g v w l, tab_resolve t root = Ok g /\ nth_error (g_nodes g) i = Some v /\ nth_error (g_nodes g) j = Some w /\
+    tab_requirements t v = Ok l /\ In d l /\ vk_name w = rq_name d /\
+    In (i, j, rq_ver d, rq_type d) (g_edges g) /\
+    keep (tab_marker t) (extras_in_force g i) d = Ok false.
+
+Lemma refutes_marker_full t root i j d : refutes_marker t root i j d -> ~ false_marker_full.
+Proof.
+  intros (Hok & g & v & w & l & Hr & Hi & Hj & Hl & Hd & Hn & He & Hk) Full.
+  destruct (table_ok _ Hok) as [W N].
+  pose proof (Full _ _ _ _ _ _ _ _ _ _ W N Hr i j v w l d Hi Hj Hl Hd Hn He) as K.
+  rewrite Hk in K. discriminate.
+Qed.
+
+(* F-C08-3: x 1.0 requested z[e2] and was then cut off from the root (w 2.0 replaced by w 1.0);
+   z 1.0 was pinned with e2 in force, so its requirement m ; extra == e2 got an edge although no
+   version in the graph requests that extra *)
+Lemma stale_witness :
+  refutes_marker ex_stale_table ex_stale_root 4 5
+    (mkrq (bs "m") 2 (bs "") [(10%Z, [101;120;116;114;97;32;61;61;32;34;101;50;34]%N)]).
+Proof.
+  unfold refutes_marker. split; [vm_compute; reflexivity|].
+  eexists; eexists; eexists; eexists.
+  split; [vm_compute; reflexivity|].
+  split; [vm_compute; reflexivity|].
+  split; [vm_compute; reflexivity|].
+  split; [vm_compute; reflexivity|].
+  split; [vm_compute; auto|].
+  split; [vm_compute; reflexivity|].
+  split; [vm_compute; auto 10|].
+  vm_compute; reflexivity.
+Qed.
+
+Theorem false_marker_refuted_stale : ~ false_marker_full.
+Proof. exact (refutes_marker_full _ _ _ _ _ stale_witness). Qed.
 
 (* ---------- non-vacuity: a universe that forces a backtrack ---------- *)
 Lemma example_backtrack :
